@@ -19,3 +19,11 @@ Proof.
                       bytes256 = true) by (vm_compute; reflexivity).
   specialize (S H b Hb). apply andb_prop in S. destruct S as [S1 S2]. split; [exact S1|]. apply Bool.eqb_prop. exact S2.
 Qed.
+
+(* what each binder of the generated definitions stands for in the source (third audit, F2): a function that starts
+   reading another field or index changes coq/gen/Leaf.v only in these lists *)
+From Coq Require Import List String.
+Import ListNotations.
+Lemma leaf_reads_strings :
+  L_strings_is_printable_ascii_args = ["byte : u8"%string].
+Proof. repeat split; reflexivity. Qed.
